@@ -56,7 +56,7 @@ def generate(rng, tier, idx):
           'sources': sources, 'tail': tail,
           'after_sources': [gen_source(rng, nf, 'late%d' % i, flags=(1,), min_fit=1) for i in range(tail['after'])],
           'preexisting': rng.choice([None, None, None, 'garbage', 'empty']),
-          'fault': None, 'restart_reply': 'y'}
+          'fault': None, 'restart_reply': 'y', 'remove_resolved': w['apdep'] and rng.random() < 0.3}
     if rng.random() < 0.4:
         sc['fault'] = {'kind': rng.choice(['crash', 'crash', 'crash', 'enospc']),
                        'where': rng.choice(['frac', 'boundary', 'meta']), 'frac': round(rng.random(), 4),
@@ -114,7 +114,7 @@ def _writer(sc, sim, W, d, text, outp):
     else:
         src = env.SimReader(sim, text)
     return pipe.call(pipe.fit, src, names, ap, d, outp, n_data_min=sc['n_data_min'], output_format=tuple(sc['sel']),
-                     output_convolved=sc['output_convolved'], **pipe.fitter_kwargs(W, sc))
+                     output_convolved=sc['output_convolved'], remove_resolved=bool(sc.get('remove_resolved')), **pipe.fitter_kwargs(W, sc))
 
 
 def _execute(sc, sim, out):
